@@ -171,10 +171,10 @@ def setup(concepts, spec):
     probes.install(['iterunion'])
     cap = CAP[spec['tier']]
     attach.attach_ctor(concepts)
-    nm = concepts.lattice_members.NavigateableMixin
+    nm = concepts.lattice_members.Concept
     attach.attach(nm, 'upset', SetMonitor('upset', True, cap))
     attach.attach(nm, 'downset', SetMonitor('downset', False, cap))
-    nl = concepts.lattices.NavigateableMixin
+    nl = concepts.lattices.Lattice
     attach.attach(nl, 'upset_union', UnionMonitor('upset_union', True, cap))
     attach.attach(nl, 'downset_union', UnionMonitor('downset_union', False, cap))
     global POOL
